@@ -124,6 +124,8 @@ type Machine struct {
 	opaqueSeq int
 	hashLog   []hashRec
 	depth     int
+	cur       *frame
+	marks     map[string]int
 	inInit    bool
 	implCache map[string]bool
 	spawnHook func(fr *frame, fn Value, args []Value, site *ssa.CallCommon)
@@ -250,6 +252,7 @@ func (m *Machine) RunPath(entry *ssa.Function, item workItem) (res *PathResult) 
 	m.lastNow = nil
 	m.nowNsec = nil
 	m.prefer = nil
+	m.marks = map[string]int{}
 	m.liftOK = map[liftKey]bool{}
 	m.liftMemo = map[*sym.Term]*sym.Term{}
 	m.mulMemo = map[*sym.Term]bool{}
